@@ -27,7 +27,7 @@ Theorem C06_inject_known : forall s t v,
 Proof. exact inject_known_l. Qed.
 Print Assumptions C06_inject_known.
 
-Theorem C06_inject_user_known : forall s t u v,
+Theorem C06_inject_user_known : forall s ep t u v,
   StronglySorted Z.lt (keys (pool s)) -> In (tid t) (keys (pool s)) ->
   keys (pool (fst (step s (InjectUser ep t u v)))) = keys (pool s).
 Proof. exact inject_user_known_l. Qed.
@@ -42,8 +42,10 @@ Theorem C06_inject_foreign_admits : forall s t v u g,
 Proof. exact inject_foreign_admits_l. Qed.
 Print Assumptions C06_inject_foreign_admits.
 
-(* user submissions must also satisfy the soft and user rules *)
-Theorem C06_inject_user_admits : forall s t uo v u g,
+(* user submissions must also satisfy the soft and user rules — through EITHER entry
+   point (ep: Visor.InjectUserTransaction, or Visor.InjectUserTransactionTx inside
+   WithUpdateTx as daemon.InjectBroadcastTransaction does) *)
+Theorem C06_inject_user_admits : forall s ep t uo v u g,
   StronglySorted Z.lt (keys (pool s)) ->
   In (u, g) (pool (fst (step s (InjectUser ep t uo v)))) -> ~ In (tid u) (keys (pool s)) ->
   u = t /\ uo = true /\ hard_ok (unspent s) t v = true /\ v_soft v = true /\ g = true.
@@ -66,7 +68,7 @@ Print Assumptions C06_inject_rejected.
 Theorem C06_pool_entries_were_admitted : forall U ops t,
   In t (map fst (pool (run (init U) ops))) ->
   exists ops1 o ops2 v, ops = ops1 ++ o :: ops2 /\
-    (o = InjectForeign t v \/ (o = InjectUser ep t true v /\ v_soft v = true)) /\
+    (o = InjectForeign t v \/ (exists ep, o = InjectUser ep t true v /\ v_soft v = true)) /\
     hard_ok (unspent (run (init U) ops1)) t v = true.
 Proof. exact pool_entries_were_admitted_l. Qed.
 Print Assumptions C06_pool_entries_were_admitted.
